@@ -1295,7 +1295,9 @@ class SelectBlock(Block, start=SelectStmt, end=EndSelectStmt):
         assert all(
             isinstance(case, (CaseStmt, CaseElseStmt)) and
             isinstance(body, list) and
-            all(isinstance(s, Stmt) for s in body)
+            # (a CASE body may contain labels and line numbers,
+            # which are not statements)
+            all(isinstance(s, Node) for s in body)
             for case, body in case_blocks
         )
 
